@@ -73,6 +73,7 @@ func NewShared(prog *ssa.Program) *Shared {
 	registerAlias(sh.intr)
 	registerJSONBox(sh.intr)
 	registerProtoBox(sh.intr)
+	registerSort(sh.intr)
 	if p := prog.ImportedPackage("errors"); p != nil {
 		sh.errorsNew = p.Func("New")
 	}
